@@ -624,13 +624,9 @@ func compareAndWriteFile(filePath string, b []byte) (bool, error) {
 		return false, nil
 	}
 
-	if len(buf) != len(b) {
-		if err := f.Truncate(int64(len(b))); err != nil {
-			return false, err
-		}
-	}
-
-	if _, err := f.WriteAt(b, 0); err != nil {
+	// Replace the content atomically as well: truncating and rewriting in
+	// place would expose a truncated or mixed file to a crash.
+	if err := writeFileAtomic(filePath, b, 0775); err != nil {
 		return false, err
 	}
 	return true, nil
